@@ -198,3 +198,42 @@ def frac_str(x):
     """exact rational of a float (every float is a dyadic rational) as 'num/den'"""
     f = Fraction(float(x))
     return f"{f.numerator}/{f.denominator}"
+
+
+# ----------------------------------------------------------------------------- histories of real reconstruct() calls
+def reconstruct_call(p, cfg, truth, loss_type, batch_size, reset, autograd=True, pass_optimizer=True):
+    """ONE real ``Ptychography.reconstruct(num_iters=1, ...)`` call on the object ``p`` (which carries whatever state earlier
+    calls left behind).  Instance-level wrappers only (nothing in /repo is changed):
+    * ``error_estimate`` is recorded (batch indices, loss, predicted intensities, the targets it used) — the loss is read before
+      any update;
+    * ``step_optimizers`` is a no-op, so the parameters stay at the ground truth;
+    * ``reset_recon`` (run by ``reset=True``) is followed by re-installing the ground truth: a restarted reconstruction starts
+      from the ground truth again (the library resets object and probe to their initial values).
+    Returns the list of batch records (numpy float64 copies)."""
+    torch = _q().torch
+    rec = []
+    real_err, real_reset = p.error_estimate, p.reset_recon
+
+    def err(pred, batch_indices, loss_type="l2_amplitude"):
+        loss, targets = real_err(pred, batch_indices, loss_type=loss_type)
+        rec.append({"indices": [int(i) for i in np.asarray(batch_indices)], "loss": float(loss.detach().double().item()),
+                    "pred": pred.detach().double().numpy(), "targets": targets.detach().double().numpy()})
+        return loss, targets
+
+    def reset_recon():
+        real_reset()
+        install_truth(p, cfg, *truth)
+
+    p.error_estimate = err
+    p.step_optimizers = lambda: None
+    p.reset_recon = reset_recon
+    try:
+        with pt.no_gc(), torch.enable_grad(), warnings.catch_warnings():
+            warnings.simplefilter("ignore")
+            p.reconstruct(num_iters=1, reset=reset, batch_size=batch_size, loss_type=loss_type, autograd=autograd,
+                          optimizer_params=(pt.sgd_params(0.0, 0.0) if pass_optimizer else None), constraints={})
+    finally:
+        del p.error_estimate
+        del p.step_optimizers
+        del p.reset_recon
+    return rec
